@@ -10,6 +10,7 @@ authenticator, what its check says (by construction of the credential, not by ru
 """
 import base64
 import json
+import re
 
 ISS_GOOD = "https://good.example"
 ISS_EVIL = "https://evil.example"
@@ -35,6 +36,20 @@ SUBJECT_MISSING = chain(kind("configuration"))  # SubjectInfo.CreateSubject: cou
 # ---------------------------------------------------------------------------------------------------------------
 # credentials
 
+def PH(name):
+    """the placeholder of a JWT the harness signs: a string of JWS compact form itself (three base64url parts), so
+    that it has the same structure as the token that replaces it on the implementation side"""
+    head = "J" + name
+    while len(head) % 4 == 1:
+        head += "0"
+    return head + ".pl.hd"
+
+
+def expand(x):
+    """in the sources of the cases JWTs are written @J<name>@"""
+    return json.loads(re.sub(r"@J(\w+?)@", lambda m: PH(m.group(1)), json.dumps(x)))
+
+
 JWTS = {
     # placeholder -> description (what the harness signs)
     "@Jok@": {"key": "k1", "kid": "k1", "iss": ISS_GOOD, "sub": "alice", "exp": 3600, "aud": ["api"]},
@@ -50,7 +65,18 @@ JWTS = {
     "@Jalg@": {"key": "k3", "kid": "k3", "iss": ISS_GOOD, "sub": "alice", "exp": 3600, "aud": ["api"]},
     "@Jtext@": {"key": "k1", "kid": "k1", "payload": "text"},
     "@Jnosub@": {"key": "k1", "kid": "k1", "iss": ISS_GOOD, "exp": 3600, "aud": ["api"]},
+    # without kid every key of the set is tried in turn (k2 is the first, k1 the last key of the set)
+    "@Jnokidexpired@": {"key": "k1", "kid": "", "iss": ISS_GOOD, "sub": "nokid", "exp": -3600, "aud": ["api"]},
+    "@Jnokidevil@": {"key": "k1", "kid": "", "iss": ISS_EVIL, "sub": "nokid", "exp": 3600, "aud": ["api"]},
+    "@Jnokid2@": {"key": "k2", "kid": "", "iss": ISS_GOOD, "sub": "nokid2", "exp": 3600, "aud": ["api"]},
+    "@Jnokid2expired@": {"key": "k2", "kid": "", "iss": ISS_GOOD, "sub": "nokid2", "exp": -3600, "aud": ["api"]},
+    # other supported signature algorithms (signed with keys that are not published)
+    "@Jhs@": {"alg": "HS256", "key": "k1", "kid": "k1", "iss": ISS_GOOD, "sub": "alice", "exp": 3600, "aud": ["api"]},
+    "@Jrs@": {"alg": "RS256", "key": "k1", "kid": "k1", "iss": ISS_GOOD, "sub": "alice", "exp": 3600, "aud": ["api"]},
+    "@Jps@": {"alg": "PS256", "key": "k1", "kid": "", "iss": ISS_GOOD, "sub": "alice", "exp": 3600, "aud": ["api"]},
+    "@Jed@": {"alg": "EdDSA", "key": "k2", "kid": "k2", "iss": ISS_GOOD, "sub": "bob", "exp": 3600, "aud": ["api"]},
 }
+JWTS = {PH(k[2:-1]): v for k, v in JWTS.items()}
 
 # what the introspection endpoint knows: token -> answer
 INTRO = {
@@ -66,6 +92,7 @@ INTRO = {
     "@Jbadsig@": {"active": False},
     "@Jexpired@": {"active": False},
 }
+INTRO = expand(INTRO)
 
 # what the identity endpoint knows: session value -> answer
 IDENT = {
@@ -90,7 +117,15 @@ def b64(s):
 BASIC_VALUES = [b64("user:secret"), b64("user:wrong"), b64("admin:secret"), b64("admin:hunter2"), b64("nocolon"),
                 b64("a:b:c"), b64(":"), b64("user:"), "!!!notbase64", "dXNlcg", ""]
 
-GARBAGE = ["garbage", "a.b.c", "eyJhbGciOiJub25lIn0.e30.", "opq-unknown", "sess-unknown", "x"]
+def b64url(s):
+    return base64.urlsafe_b64encode(s.encode()).decode().rstrip("=")
+
+
+# strings of JWS compact form that jwt.ParseSigned refuses: `alg: none`, an algorithm nobody knows, a header that is
+# no JSON, a header without algorithm
+NOT_JWTS = ["eyJhbGciOiJub25lIn0.e30.", b64url('{"alg":"XS999","typ":"JWT"}') + ".e30.c2ln",
+            b64url("not json") + ".e30.c2ln", b64url('{"typ":"JWT"}') + ".e30.c2ln", "a.b.c", "abcd.e30"]
+GARBAGE = ["garbage", "opq-unknown", "sess-unknown", "x", "key7.sess-carol", "key7.sess-401"] + NOT_JWTS
 
 
 # ---------------------------------------------------------------------------------------------------------------
@@ -115,7 +150,7 @@ def _claims_fail(desc, mech):
 def _verify_with_key(desc, mech, kid):
     """verifyTokenWithKey: None if the token verifies with the key published under kid, else (site, cause)"""
     key_alg = KNOWN_KIDS[kid]
-    if key_alg != "ES256":                     # the tokens are all signed with ES256
+    if key_alg != desc.get("alg", "ES256"):    # the algorithm stated in the header of the token
         return ("algMismatch", None)
     if key_alg not in (mech.get("algs") or DEFAULT_ALGS):
         return ("algNotAllowed", ASSERTION)
@@ -202,6 +237,12 @@ def intro_verdict(tok, mech):
 
 
 def gen_verdict(val, mech):
+    if mech.get("tpl"):
+        # payload: {{ atIndex 1 (splitList "." .AuthenticationData) }}
+        parts = val.split(".")
+        if len(parts) < 2:
+            return verdict(("payloadRender", chain(FOREIGN, FOREIGN)))
+        val = parts[1]
     ep = mech.get("ep", "ok")
     if ep == "dead":
         return verdict(("unreachable", FOREIGN))
@@ -239,25 +280,94 @@ def basic_parts(text):
 # requests
 
 SCHEMES = ["Bearer", "Basic", "Token"]
+TOKEN_CHARS = set("!#$%&'*+-.^_`|~0123456789abcdefghijklmnopqrstuvwxyzABCDEFGHIJKLMNOPQRSTUVWXYZ")
 
 
 def trim(s):
     return s.strip(" \t")
 
 
+def canonical_key(name):
+    """textproto.CanonicalMIMEHeaderKey"""
+    if not all(c in TOKEN_CHARS for c in name):
+        return name
+    out, upper = [], True
+    for c in name:
+        out.append(c.upper() if upper else c.lower())
+        upper = c == "-"
+    return "".join(out)
+
+
+def go_query_unescape(s):
+    out, i = [], 0
+    while i < len(s):
+        c = s[i]
+        if c == "%":
+            h = s[i + 1:i + 3]
+            if len(h) != 2 or any(x not in "0123456789abcdefABCDEF" for x in h):
+                return None
+            out.append(chr(int(h, 16)))
+            i += 3
+        else:
+            out.append(" " if c == "+" else c)
+            i += 1
+    return "".join(out)
+
+
+def go_parse_query(raw):
+    """url.ParseQuery with its error ignored (URL.Query()): the pairs that can be read, in order"""
+    res = []
+    for piece in raw.split("&"):
+        if piece == "" or ";" in piece:
+            continue
+        k, _, v = piece.partition("=")
+        k, v = go_query_unescape(k), go_query_unescape(v)
+        if k is None or v is None:
+            continue
+        res.append([k, v])
+    return res
+
+
+def go_parse_cookies(lines):
+    """net/http readCookies"""
+    res = []
+    for line in lines:
+        for part in trim(line).split(";"):
+            part = trim(part)
+            if part == "":
+                continue
+            n, _, v = part.partition("=")
+            n = trim(n)
+            if n == "" or not all(c in TOKEN_CHARS for c in n):
+                continue
+            if len(v) > 1 and v[0] == '"' and v[-1] == '"':
+                v = v[1:-1]
+            if all(0x20 <= ord(c) < 0x7f and c not in '";\\' for c in v):
+                res.append([n, v])
+    return res
+
+
+def query_of(req):
+    return go_parse_query(req["rawQuery"]) if "rawQuery" in req else req.get("query", [])
+
+
+def cookies_of(req):
+    return go_parse_cookies(req["rawCookies"]) if "rawCookies" in req else req.get("cookies", [])
+
+
 def candidates(req):
     """every string an extractor can possibly hand to an authenticator for this request (over-approximation)"""
-    res = set([""])
+    res = set(["", trim(req.get("host", "heimdall.local"))])
     by_name = {}
     for n, v in req.get("headers", []):
-        by_name.setdefault(n, []).append(v)
+        by_name.setdefault(canonical_key(n), []).append(v)
     for vs in by_name.values():
         joined = ",".join(vs)
         res.add(trim(joined))
         for s in SCHEMES:
             if joined.startswith(s):
                 res.add(trim(joined[len(s):]))
-    for n, v in req.get("query", []) + req.get("cookies", []):
+    for n, v in query_of(req) + cookies_of(req):
         res.add(trim(v))
     body = req.get("body")
     if body and body.get("parsed") is not None:
@@ -288,7 +398,8 @@ def world_for(mechs, reqs):
     for r in reqs:
         cands |= candidates(r)
     cands = sorted(cands)
-    w = {"basic": [], "parses": [c for c in cands if c in JWTS], "jwt": [], "intro": [], "gen": []}
+    w = {"basic": [], "headerAlg": [[c, JWTS[c].get("alg", "ES256")] for c in cands if c in JWTS],
+         "jwt": [], "intro": [], "gen": []}
     for c in cands:
         parts = basic_parts(c)
         if parts is not None:
@@ -326,6 +437,20 @@ def render_body(kind_, fields):
                 pairs.append(quote_plus(n) + "=" + quote_plus(v, safe="@"))
             parsed.append([n, {"t": "strs", "v": list(vs)}])
         return {"ct": "application/x-www-form-urlencoded", "raw": "&".join(pairs), "parsed": parsed}
+    if kind_ == "yaml":
+        # block style YAML: strings, lists of strings, numbers
+        lines, parsed = [], []
+        for n, v in fields:
+            if isinstance(v, str):
+                lines.append(f"{n}: {json.dumps(v)}")
+                parsed.append([n, {"t": "str", "v": v}])
+            elif isinstance(v, list):
+                lines.append(f"{n}: {json.dumps(v)}")
+                parsed.append([n, {"t": "anys", "v": [x if isinstance(x, str) else None for x in v]}])
+            else:
+                lines.append(f"{n}: {json.dumps(v)}")
+                parsed.append([n, {"t": "other"}])
+        return {"ct": "application/yaml", "raw": "\n".join(lines) + "\n", "parsed": parsed}
     if kind_ == "text":
         return {"ct": "text/plain", "raw": "access_token=" + (fields[0][1] if fields else "x"), "parsed": None}
     if kind_ == "badjson":
@@ -349,6 +474,12 @@ SOURCE_POOL = [
     {"k": "cookie", "name": "tok"},
     {"k": "body", "name": "access_token"},
     {"k": "body", "name": "token"},
+    # header names are case-insensitive: the configuration may spell them any way
+    {"k": "header", "name": "authorization", "scheme": "Bearer"},
+    {"k": "header", "name": "x-api-key", "scheme": ""},
+    {"k": "header", "name": "X-TOKEN", "scheme": "Bearer"},
+    # the Host pseudo header
+    {"k": "header", "name": "Host", "scheme": ""},
 ]
 
 DEFAULT_SOURCES = [SOURCE_POOL[0], SOURCE_POOL[4], SOURCE_POOL[8]]
@@ -369,8 +500,13 @@ def gen_mech(rng, idx, typ=None):
         m["subject"] = rng.choice(["", "", "anon", "guest"])
         return m
     if typ == "unauthorized":
+        # unauthorized ignores its configuration altogether: whatever it says, there is no fallback
+        if rng.random() < 0.3:
+            m["fb"] = rng.random() < 0.7
         return m
-    m["fb"] = rng.random() < 0.3
+    # allow_fallback_on_error is left out in a third of the definitions: the default is "no fallback"
+    if rng.random() < 0.66:
+        m["fb"] = rng.random() < 0.45
     ep = rng.choice(["ok"] * 8 + ["500", "badjson", "dead"])
     if typ == "basic_auth":
         m["user"], m["pass"] = rng.choice([("user", "secret"), ("user", "secret"), ("admin", "hunter2")])
@@ -391,6 +527,8 @@ def gen_mech(rng, idx, typ=None):
         m["src"] = gen_sources(rng, allow_default=False)
         m["lifespan"] = rng.random() < 0.5
         m["ep"] = ep
+        if rng.random() < 0.2:
+            m["tpl"] = True       # api keys <id>.<secret>: the payload template picks the secret with atIndex
     return m
 
 
@@ -414,7 +552,7 @@ def credential_for(rng, m):
         return rng.choice(BASIC_VALUES)
     if t == "jwt":
         if r < 0.25:
-            return rng.choice(["@Jok@", "@Jok2@", "@Jnokid@"])
+            return PH(rng.choice(["ok", "ok2", "nokid", "nokid2"]))
         if r < 0.8:
             return rng.choice(sorted(JWTS))
         return rng.choice(GARBAGE + sorted(INTRO))
@@ -423,6 +561,8 @@ def credential_for(rng, m):
             return rng.choice(sorted(INTRO))
         return rng.choice(GARBAGE + sorted(JWTS))
     if t == "generic":
+        if m.get("tpl") and r < 0.6:
+            return "key7." + rng.choice(sorted(IDENT))
         if r < 0.75:
             return rng.choice(sorted(IDENT))
         return rng.choice(GARBAGE + sorted(INTRO))
@@ -457,7 +597,13 @@ def place(rng, req, src, value):
                 hv = scheme + " "
         else:
             hv = decorate(rng, value) if r < 0.95 else ""
-        req["headers"].append([src["name"], hv])
+        name = src["name"]
+        if name == "Host":
+            req["host"] = hv
+            return
+        q = rng.random()
+        name = name if q < 0.6 else name.lower() if q < 0.8 else name.upper() if q < 0.9 else canonical_key(name)
+        req["headers"].append([name, hv])
     elif k == "query":
         req["query"].append([src["name"], decorate(rng, value) if rng.random() < 0.95 else ""])
     elif k == "cookie":
@@ -477,7 +623,7 @@ def finish_body(rng, req):
         if n not in seen:
             seen.add(n)
             uniq.append((n, v))
-    if r < 0.4:
+    if r < 0.35:
         out = []
         for n, v in uniq:
             q = rng.random()
@@ -486,7 +632,7 @@ def finish_body(rng, req):
         if rng.random() < 0.3:
             out.append(("unrelated", "x"))
         req["body"] = render_body("json", out)
-    elif r < 0.8:
+    elif r < 0.75:
         out = []
         for n, v in uniq:
             q = rng.random()
@@ -496,9 +642,68 @@ def finish_body(rng, req):
         if not out:
             out.append(("unrelated", ["x"]))
         req["body"] = render_body("form", out)
+    elif r < 0.88:
+        out = []
+        for n, v in uniq:
+            q = rng.random()
+            out.append((n, v if q < 0.7 else [v] if q < 0.8 else [v, "second"] if q < 0.9 else 5))
+        if not out:
+            out.append(("unrelated", "x"))
+        req["body"] = render_body("yaml", out)
     else:
         req["body"] = render_body(rng.choice(["text", "badjson", "jsonarray"]), [(n, v) for n, v in uniq])
     req["method"] = "POST"
+
+
+def rawify(rng, req):
+    """turn the query / the cookies into what stands on the wire, sometimes in a form net/url or net/http drop"""
+    from urllib.parse import quote
+    if req["query"] and rng.random() < 0.35:
+        pieces = []
+        for n, v in req["query"]:
+            q = rng.random()
+            enc = quote(v, safe="-._~")
+            if q < 0.55:
+                pieces.append(f"{n}={enc}")
+            elif q < 0.7:
+                pieces.append(f"{n}={enc};x=1")          # a semicolon: the pair is dropped
+            elif q < 0.8:
+                pieces.append(f"{n}={enc}%zz")           # a bad escape: the pair is dropped
+            elif q < 0.88:
+                pieces.append(f"{n}={enc}+")             # a blank at the end (trimmed by the extractor)
+            elif q < 0.94:
+                pieces.append(f"x=1;{n}={enc}")
+            elif v and trim(v) not in JWTS:
+                pieces.append(f"{n}=%{ord(v[0]):02x}{quote(v[1:], safe='-._~')}")   # an escaped character
+            else:
+                pieces.append(f"{n}" if not v else f"{n}={enc}")
+        if rng.random() < 0.2:
+            pieces.insert(rng.randrange(len(pieces) + 1), rng.choice(["", "=", "a=b=c", "%", "z;"]))
+        req["rawQuery"] = "&".join(pieces)
+        del req["query"]
+    if req["cookies"] and rng.random() < 0.35:
+        parts = []
+        for n, v in req["cookies"]:
+            q = rng.random()
+            if q < 0.5:
+                parts.append(f"{n}={v}")
+            elif q < 0.6:
+                parts.append(f'{n}="{v}"')                # quoted: the quotes are stripped
+            elif q < 0.7:
+                parts.append(f'{n}={v}"')                 # a stray quote: the cookie is dropped
+            elif q < 0.78:
+                parts.append(f"{n}={v}\\")               # a backslash: dropped
+            elif q < 0.86:
+                parts.append(f"{n}={v}\u00e4")            # a non-ASCII character: dropped
+            elif q < 0.92:
+                parts.append(f" {n} = {v} ")              # blanks around the name / inside the value
+            else:
+                parts.append(f"{n}={v},x")                # a comma is allowed
+        if rng.random() < 0.2:
+            parts.insert(rng.randrange(len(parts) + 1), rng.choice(["", "novalue", "bad name=x", "=x"]))
+        lines = ["; ".join(parts)] if rng.random() < 0.8 or len(parts) < 2 else ["; ".join(parts[:1]), ";".join(parts[1:])]
+        req["rawCookies"] = lines
+        del req["cookies"]
 
 
 def gen_request(rng, mechs_in_chain, all_mechs):
@@ -517,6 +722,7 @@ def gen_request(rng, mechs_in_chain, all_mechs):
     if rng.random() < 0.1:
         req["headers"].append(["X-Unrelated", "1"])
     finish_body(rng, req)
+    rawify(rng, req)
     return req
 
 
@@ -526,7 +732,7 @@ def gen_steps(rng, mechs, max_len):
     for _ in range(n):
         m = rng.choice(mechs)
         st = {"ref": m["id"]}
-        if m["type"] not in ("anonymous", "unauthorized") and rng.random() < 0.3:
+        if m["type"] != "anonymous" and rng.random() < 0.3:
             st["fb"] = rng.random() < 0.5
         if m["type"] in ("jwt", "oauth2_introspection", "generic") and rng.random() < 0.2:
             st["ttl"] = True
@@ -549,13 +755,14 @@ def tokens_used(reqs):
 
 def assemble(mechs, steps, reqs, note=None, cache=False):
     """complete a case: tokens to mint, endpoint registries, the world"""
+    reqs = expand(reqs)
     cands = set()
     for r in reqs:
         cands |= candidates(r)
     c = {"fam": "authn", "op": "chain", "mechs": mechs, "steps": steps, "reqs": reqs,
          "tokens": tokens_used(reqs) or [],
          "intro": {k: v for k, v in INTRO.items() if k in cands},
-         "ident": {k: v for k, v in IDENT.items() if k in cands},
+         "ident": {k: v for k, v in IDENT.items() if any(k in c for c in cands)},
          "world": world_for(effective(mechs, steps), reqs)}
     if cache:
         c["cache"] = True
@@ -584,6 +791,7 @@ def gen_case(rng, n_reqs=12, max_len=5):
 # systematic small scope: every ordered pair / triple of authenticator types x fallback settings x credential states
 
 def _std_mech(typ, idx, fb):
+    """fb: True / False / None (allow_fallback_on_error left out of the definition)"""
     m = {"id": f"a{idx}", "type": typ}
     if typ == "anonymous":
         m["subject"] = ""
@@ -596,6 +804,10 @@ def _std_mech(typ, idx, fb):
                  iss=[ISS_GOOD], aud=[], ep="ok", fb=fb)
     elif typ == "generic":
         m.update(src=[{"k": "cookie", "name": "sess"}], lifespan=True, ep="ok", fb=fb)
+    elif typ == "unauthorized" and fb is not None:
+        m["fb"] = fb
+    if m.get("fb", 0) is None:
+        del m["fb"]
     return m
 
 
@@ -628,17 +840,16 @@ def small_scope_cases(lengths=(2,), with_override=False):
             # two authenticators looking at the same header would need consistent states: skip duplicates
             if len(set(combo)) != len(combo):
                 continue
-            if "basic_auth" in combo and "jwt" in combo:
-                # both read Authorization: states are combined below only where compatible
-                pass
-            flag_sets = itertools.product(*[[False, True] if t not in ("anonymous", "unauthorized") else [False]
-                                            for t in combo])
+            # None: allow_fallback_on_error left out of the definition (the default must be "no fallback")
+            flag_sets = itertools.product(*[[None, False, True] if t not in ("anonymous", "unauthorized") else
+                                            [None, True] if t == "unauthorized" else [None] for t in combo])
             for flags in flag_sets:
                 mechs = [_std_mech(t, i, fb) for i, (t, fb) in enumerate(zip(combo, flags))]
                 steps = [{"ref": m["id"]} for m in mechs]
                 if with_override:
-                    # the rule inverts the setting of the definition
-                    steps = [dict(s, fb=not m["fb"]) if "fb" in m else s for s, m in zip(steps, mechs)]
+                    # the rule inverts the setting of the definition (an absent one counts as false)
+                    steps = [dict(s, fb=not m.get("fb", False)) if m["type"] != "anonymous" else s
+                             for s, m in zip(steps, mechs)]
                 reqs = []
                 for states in itertools.product(*[STATES[t] for t in combo]):
                     hdrs = {}
